@@ -157,6 +157,13 @@ E6 = netlist.NL('e6', [('a', 'in'), ('b', 'in'), ('c', 'in'), ('d', 'in'), ('y',
                 [('g1', 'XNOR4', ['x'], ['a', 'b', 'c', 'd']), ('ff', 'DFF', ['q', None], ['x']), ('g2', 'INV1', ['y'], ['x']), ('g3', 'BUF1', [None], ['q'])])
 
 
+E7 = netlist.NL('e7_bench', [('x', 'in'), ('y', 'in'), ('a', 'out'), ('p', 'out'), ('q', 'out')],
+                [('g0', 'NAND2', ['a'], ['x', 'y']), ('g1', 'INV1', ['p'], ['a']), ('g2', 'AND2', ['q'], ['a', 'x'])])       # bench style: the port 'a' has a driver and two readers
+
+
+def style_of(nl): return 'bench' if nl.name.endswith('_bench') else 'verilog'
+
+
 def caps_of(c, caps):
     """capacity argument: int, or ('stem', big, small): lines driven by cells get `big`, all other lines `small`"""
     if not isinstance(caps, (tuple, list)): return caps
@@ -191,7 +198,8 @@ def e2e_jobs(tier, seed, lemmas, light=False):
 
 
 def _in_slots(c):
-    return [i for i, n in enumerate(c.s_nodes) if any(l is not None for l in n.outs)]
+    """positions of primary inputs and state elements (nodes that drive something and are not themselves driven ports)"""
+    return [i for i, n in enumerate(c.s_nodes) if any(l is not None for l in n.outs) and (ref2.is_state(n.kind) or not any(l is not None for l in n.ins))]
 
 
 def sta(c, sw, stim):
@@ -231,7 +239,7 @@ def e2e_job(job):
     opts = dict(optt)
     rep = common.Report()
     nl = netlist.NL.from_json(nlj)
-    c = netlist.build(nl, 'verilog')
+    c = netlist.build(nl, style_of(nl))
     ins = _in_slots(c)
     stim = {i: st[k] for k, i in enumerate(ins)}
     eng = Engine(timeout_ms=60000, deadline_s=600)
@@ -278,8 +286,11 @@ def e2e_job(job):
             if 'STA' in lemmas and i in cap0:
                 a = win[sn[i].ins[0].index]
                 s4, s5 = T.lift(s4), T.lift(s5)
-                if s4.c == 0 and (a is None or not eng.valid(s4.e >= a[0])): bad.append(('STA', f'{sn[i].name}: earliest arrival before the static-timing bound'))
-                if s5.c == 0 and (a is None or not eng.valid(s5.e <= a[1])): bad.append(('STA', f'{sn[i].name}: latest stabilisation after the static-timing bound'))
+                _, _, finw, _ = decode(sw.line_wave(sn[i].ins[0].index))
+                if finw:
+                    if s4.c != 0 or s5.c != 0: bad.append(('STA', f'{sn[i].name}: the waveform has transitions but earliest arrival / latest stabilisation are not finite times'))
+                    elif a is None or not eng.valid(z3.And(s4.e >= a[0], s5.e <= a[1], s4.e <= s5.e)): bad.append(('STA', f'{sn[i].name}: earliest arrival / latest stabilisation outside the static-timing window'))
+                elif s4.c != 1 or s5.c != -1: bad.append(('STA', f'{sn[i].name}: no transition on the output but earliest arrival / latest stabilisation report one'))
         if 'OVLID' in lemmas:
             sw2 = SymWave(eng, cls, c, 64, stim, {}, dvars=sw.dv, tvars=sw.tv).run()
             for i in sw.w.poppo_s_locs:
@@ -333,7 +344,7 @@ def replay(data):
                 return True, f's_to_c: input {i} value {data["vals"][i]} encoded as {[float(w.c[loc + j, 0]) for j in range(4)]}'
         return False, 'ok'
     nl = netlist.NL.from_json(data['nl'])
-    c = netlist.build(nl, 'verilog')
+    c = netlist.build(nl, style_of(nl))
     ins = _in_slots(c)
     stim = {i: data['stim'][k] for k, i in enumerate(ins)}
     dvals = {tuple(k): v for k, v in data['dvals']}; tvals = {int(k): v for k, v in data['tvals']}
@@ -406,6 +417,14 @@ def replay(data):
                 _, init, fin, _ = decode_f([w.c[loc + j, 0] for j in range(cap)])
                 for x in fin:
                     if a is None or x < a[0] - 1e-4 or x > a[1] + 1e-4: return True, f'line {l.index}: transition at {x} outside static-timing window {a}'
+            for i in w.poppo_s_locs:
+                i = int(i)
+                if i not in cap0: continue
+                l = sn[i].ins[0].index
+                _, init, fin, _ = decode_f([w.c[int(w.c_locs[l]) + j, 0] for j in range(int(w.c_caps[l]))])
+                s4, s5 = float(w.s[4, i, 0]), float(w.s[5, i, 0])
+                want = (min(fin), max(fin)) if fin else (float(TMAX), float(TMIN))
+                if (s4, s5) != want: return True, f'{sn[i].name}: earliest arrival / latest stabilisation {(s4, s5)}, the waveform {fin} gives {want}'
     return False, 'no mismatch'
 
 
